@@ -1067,3 +1067,103 @@ Proof. exact config_known_types. Qed.
 Print Assumptions C13_from_yaml_contract_total.
 Print Assumptions C13_from_yaml_config_total.
 Print Assumptions C13_configuration_read_has_known_types.
+
+(* the last sentence of the property for rekey-to: the address algebra has NO prime point on raw string sets
+   (C13_address_domain_has_no_prime_point), so the generic theorems above do not apply; the two halves of their laws
+   hold for two readings of `the any-address flag is set` that agree on the constraints the analysis builds, and the
+   solver preserves the representation invariant (LeafLemmas.addr_wf: universal, null, or a plain set -- never a
+   mixture of a marker and anything else) -- Lemmas/GroupSem5.v *)
+From Tealer Require Import LeafLemmas GroupSem5.
+
+Theorem C13_address_domain_has_no_prime_point :
+  forall dg : sset -> Prop,
+    ~ dg Leaves.addr_null_set ->
+    (forall a b, dg (Leaves.addr_union a b) -> dg a \/ dg b) ->
+    (forall a b, dg a -> dg b -> dg (Leaves.addr_intersection a b)) ->
+    dg Leaves.addr_universal_set -> False.
+Proof. exact no_prime_point_on_raw_sets. Qed.
+
+(* the solver preserves the invariant: well-formed block constraints (init_constraints gives them: GroupSem5.init_wf)
+   => every value of the result of solve is well formed; every RekeyTo value that Detect.ctx_of reads from the result of
+   run_all is well formed *)
+Theorem C13_address_solver_preserves_well_formedness :
+  forall (single : Syntax.instr -> nat -> list StackAst.sval -> sset * sset),
+    (forall op pos args, addr_wf (fst (single op pos args)) /\ addr_wf (snd (single op pos args))) ->
+    forall (f : func) (fuel : nat) (bc lo : list (nat * sset)),
+      (forall b v, Analysis.lookup sset bc b = Some v -> addr_wf v) ->
+      solve sset sset_seteqb Leaves.addr_universal_set Leaves.addr_null_set Leaves.addr_union Leaves.addr_intersection
+        single f fuel bc = Done lo ->
+      forall b v, Analysis.lookup sset lo b = Some v -> addr_wf v.
+Proof. exact solve_addr_wf. Qed.
+
+Theorem C13_rekey_to_values_well_formed :
+  forall f fuel r, run_all f fuel = Done r -> forall fam b, addr_wf (res_addr r "RekeyTo" fam b).
+Proof. exact run_all_rekey_wf. Qed.
+
+(* one solve over the address domain: the result holds ANY_ADDRESS at b  iff  some literal accepting path through b
+   admits it (Spec/Literal.LiveOut), for block constraints on which the two readings agree *)
+Theorem C13_address_any_flag_exact :
+  forall (single : Syntax.instr -> nat -> list StackAst.sval -> sset * sset),
+    (forall op pos args, addr_wf (fst (single op pos args)) /\ addr_wf (snd (single op pos args))) ->
+    forall (f : func), graph_wf f = true ->
+    forall (bc : list (nat * sset)),
+      (forall b c, Analysis.lookup sset bc b = Some c -> any_in c -> any_strict c) ->
+      forall (fuel : nat) (lo : list (nat * sset)),
+        solve sset sset_seteqb Leaves.addr_universal_set Leaves.addr_null_set Leaves.addr_union Leaves.addr_intersection
+          single f fuel bc = Done lo ->
+        forall b,
+          (exists x, Analysis.lookup sset lo b = Some x /\ any_in x) <->
+          Literal.LiveOut f (ExactLemmas.okb sset unit (pgamma sset any_in) tt bc)
+            (ExactLemmas.oke sset Leaves.addr_universal_set Leaves.addr_null_set Leaves.addr_union
+               Leaves.addr_intersection single f unit (pgamma sset any_in) tt) b.
+Proof. exact solve_any_iff_live. Qed.
+
+(* THE EQUALITY for rekey-to, all fuels, both directions *)
+Theorem C13_single_contract_verdict_equal_rekey_to :
+  forall funcs dtype vtypes t k f r fuelr fuel ps,
+    single_contract t k -> nth_error funcs k = Some (f, r) -> relative_accessors [t] t = [] ->
+    eligible dtype vtypes t -> g_abs t = None ->
+    graph_wf f = true -> subroutine_free f -> run_all f fuelr = Done r ->
+    run_detector f r fuel "rekey-to" Leaves.checks_rekey_to = Done ps ->
+    (txn_vulnerable funcs Leaves.checks_rekey_to dtype vtypes [t] t = true <-> ps <> []).
+Proof. exact single_group_eq_contract_rekey. Qed.
+
+(* ... stated on source programs: every parsed structured contract without subroutines *)
+Theorem C13_single_contract_verdict_equal_rekey_to_parsed :
+  forall funcs dtype vtypes t k p tl r fuelr fuel ps,
+    Cfg.parse_teal p = Parse.Ok tl -> struct_ok tl -> subroutine_free (whole_function tl) ->
+    single_contract t k -> nth_error funcs k = Some (whole_function tl, r) -> relative_accessors [t] t = [] ->
+    eligible dtype vtypes t -> g_abs t = None ->
+    run_all (whole_function tl) fuelr = Done r ->
+    run_detector (whole_function tl) r fuel "rekey-to" Leaves.checks_rekey_to = Done ps ->
+    (txn_vulnerable funcs Leaves.checks_rekey_to dtype vtypes [t] t = true <-> ps <> []).
+Proof. exact single_group_eq_contract_rekey_parsed. Qed.
+
+(* the unvalidated exit itself is the end of a reported-path candidate *)
+Theorem C13_rekey_to_unvalidated_exit_ends_a_path :
+  forall f fuel r b,
+    graph_wf f = true -> subroutine_free f -> run_all f fuel = Done r ->
+    fn_leaf_block f b -> validated_in_block r Leaves.checks_rekey_to None b = false ->
+    exists p, GoodPath f (validated_in_block r Leaves.checks_rekey_to None) p /\ last p 0 = b.
+Proof. exact unvalidated_leaf_has_unvalidated_path_rekey. Qed.
+
+(* the hypothesis "no callsub / retsub" cannot simply be dropped for rekey-to either (the D4 shape with the rekey check in
+   the returning branch: GroupSem5.RekeySubRefuted) *)
+Theorem C13_single_contract_verdict_equal_rekey_to_subroutine_refuted :
+  ~ (forall funcs dtype vtypes t k p tl r fuelr fuel ps,
+       Cfg.parse_teal p = Parse.Ok tl -> struct_ok tl -> graph_wf (whole_function tl) = true ->
+       single_contract t k -> nth_error funcs k = Some (whole_function tl, r) -> relative_accessors [t] t = [] ->
+       eligible dtype vtypes t -> g_abs t = None ->
+       run_all (whole_function tl) fuelr = Done r ->
+       run_detector (whole_function tl) r fuel "rekey-to" Leaves.checks_rekey_to = Done ps ->
+       (txn_vulnerable funcs Leaves.checks_rekey_to dtype vtypes [t] t = true <-> ps <> [])).
+Proof. exact single_group_eq_contract_rekey_subroutine_refuted. Qed.
+
+Print Assumptions C13_address_domain_has_no_prime_point.
+Print Assumptions C13_address_solver_preserves_well_formedness.
+Print Assumptions C13_rekey_to_values_well_formed.
+Print Assumptions C13_address_any_flag_exact.
+Print Assumptions C13_single_contract_verdict_equal_rekey_to.
+Print Assumptions C13_single_contract_verdict_equal_rekey_to_parsed.
+Print Assumptions C13_rekey_to_unvalidated_exit_ends_a_path.
+Print Assumptions C13_single_contract_verdict_equal_rekey_to_subroutine_refuted.
